@@ -15,6 +15,6 @@ for name in sorted(os.listdir('/verif/seeded')):
     rows.append(f"| {name} | {m['breaks_property']} | {m['needs_to_manifest']} | {'; '.join(sigs) if sigs else 'MISSED'}{extra} |")
 block="\n".join(rows)
 s=open('/verif/DESIGN.md').read()
-s=re.sub(r'<!-- SEEDED-TABLE-BEGIN -->.*?<!-- SEEDED-TABLE-END -->','<!-- SEEDED-TABLE-BEGIN -->\n'+block+'\n<!-- SEEDED-TABLE-END -->',s,flags=re.S)
+s=re.sub(r'<!-- SEEDED-TABLE-BEGIN -->.*?<!-- SEEDED-TABLE-END -->',lambda m: '<!-- SEEDED-TABLE-BEGIN -->\n'+block+'\n<!-- SEEDED-TABLE-END -->',s,flags=re.S)
 open('/verif/DESIGN.md','w').write(s)
 print(len(rows)-2,"rows")
